@@ -368,6 +368,30 @@ theorem drain_returns_only_when_empty {kind : Nat → W.Drv.Cmd} {inCap outCap :
     rw [hk1] at ha'
     exact sync_empty s (sync_reach h) a.q (stepApp_returned s.k k1 j a a' ha hk' ha' hret) w hw
 
+/-- **`E` is the Noop instance of `G`.** With every command a Noop and the connections silent, a step
+    of `E` (component read off the protocol state, `K`'s pass as the tick) IS the same step of `G`
+    (component in the state, `Driver.Tick`'s stages as the tick, id queues synchronised, subscribers of
+    the shrunk queues notified) on the embedded state — so the runs of `G` include, for Noop
+    commands, runs that are runs of `K` and on which every drain returns (`E.drain_terminates`). -/
+theorem E_is_noop_instance (inCap outCap : Nat) {s s' : E.St} {t : K.Th} (hr : E.Reach s)
+    (h : E.step s t = some s') :
+    step (fun _ => .noop) inCap outCap (emb s) (ofTh t) = some (emb s') := by
+  have hp : s.k.prog = false := by
+    clear h
+    induction hr with
+    | init scripts nq h => rfl
+    | step t hr hs ih => exact (noop_step 0 0 (noMid_reach hr) ih hs).2
+  exact (noop_step inCap outCap (noMid_reach hr) hp h).1
+
+theorem E_reach_is_G_reach (inCap outCap : Nat) {s : E.St} (hr : E.Reach s) :
+    Reach (fun _ => .noop) inCap outCap (emb s) := by
+  induction hr with
+  | init scripts nq h =>
+    have : emb (E.init scripts nq) = init scripts nq := by
+      simp [emb, E.init, init, coreOf, K.init, qOf]
+    rw [this]; exact Reach.init scripts nq h
+  | step t hr hs ih => exact Reach.step _ ih (E_is_noop_instance inCap outCap hr hs)
+
 /-! non-vacuity: one thread, `Enqueue(kernel with one request); DrainCommandQueue` -/
 def kern1 : Nat → W.Drv.Cmd := fun _ => .kern 1
 def demoG : St := init [[.enq 0, .drain 0]] 1
@@ -399,6 +423,9 @@ example : (runSched kern1 4 4 demoG (schedG ++ [.app 0, .app 0, .retrieve, .deli
     (fun (s : St) => s.k.apps.map (·.returned)) = some [0] ∧
     (runSched kern1 4 4 demoG (schedG ++ [.app 0, .app 0, .retrieve, .deliver ⟨0⟩, .eng, .eng, .app 0])).map
     (fun (s : St) => s.k.apps.map (·.returned)) = some [1] := by decide
+-- `E`'s demo run, embedded, is a run of `G` with Noop commands (same schedule)
+example : (runSched (fun _ => .noop) 4 4 (emb E.demoInit) (E.demoSched.map ofTh)).map (fun (s : St) => (s.k, s.owed, s.core.d)) =
+    (E.runSched E.demoInit E.demoSched).map (fun s => ((emb s).k, (emb s).owed, (emb s).core.d)) := by decide
 
 end G
 
